@@ -51,6 +51,9 @@ func propC17(c *Ctx, r *Report) {
 	r.Clauses = append(r.Clauses, "one numbering per flattened list (E90): where a backend appends to one list in several places and numbers the elements by len(list) in one of them, no other append to that list numbers its element by the key of an outer loop over something else - the later ordering by that number (the HLSL entry-point input struct restores argument order with it) would interleave the members of neighbouring parameters")
 	c.runMixedBasis(r, "index.mixedbasis", inPkgs("hlsl/internal/codegen", "msl/internal/codegen", "glsl/internal/codegen", "spirv/internal/codegen", "dxil/internal/emit"))
 	r.floor("index.mixedbasis", 1)
+	r.Clauses = append(r.Clauses, missReportedClause)
+	c.runMissReported(r, "bindmap.missreported", "hlsl/internal/codegen")
+	r.floor("bindmap.missreported", 2)
 	r.Clauses = append(r.Clauses, epSelectClause+" - the reflection data (texture-sampler pairs, entry-point names) is collected by such loops")
 	c.runEPSelectAgree(r, "epselect.agree", "glsl/internal/codegen")
 	r.floor("epselect.agree", 4)
@@ -81,3 +84,5 @@ const accumClause = "order-independent accumulation (E29): a variable created la
 const builtinDirClause = "two-way built-ins (E59): a function that names built-in values for a target and is told the direction (a bool next to the ir.BuiltinValue) consults it in the arms for position and sample_mask - the two WGSL built-ins that are an input at one stage position and an output at another - whenever it consults it for any built-in at all"
 
 const silentDefaultClause = "no silent default (E72): where the lowerer evaluates a piece of source syntax (a function taking a parser.Expr and answering (value, ok)) and uses the value only when ok, there is an else branch, or the same syntax is afterwards handed to another function (a fallback) - otherwise what the source says is silently replaced by the default"
+
+const missReportedClause = "missing bindings are reported (E100): every HLSL writer function that determines a BindTarget and consults FakeMissingBindings raises ErrMissingBinding (itself or through a callee) - the option's documentation promises that error for a resource without a map entry; the zero target puts all unmapped resources on register 0 of space 0"
